@@ -1589,7 +1589,12 @@ fn parse_mapping(mapping: &Mapping) -> crate::Result<Expression> {
                 }
                 if group.is_empty() {
                     return Err(crate::error::parse_invalid_ident("failed to parse mapping"));
-                } else if !multiple && group.len() == 1 {
+                } else if !multiple
+                    && group.len() == 1
+                    && !matches!(e, Expression::Match(Match::Of(_), _))
+                {
+                    // NOTE: A count must be kept even for a single member, or `of(k, 0)` and
+                    // `of(k, 2)` over one member would behave like the bare member
                     group.into_iter().next().expect("could not get expression")
                 } else if let Expression::Match(m, _) = e {
                     if group.len() == 1 {
